@@ -19,7 +19,7 @@ def tools(variant="rel", sched=False):
             import schedlib
             e = schedlib.build_encdrv(variant)
         else:
-            e = vlib.cc_harness(variant, "encdrv", ["encdrv.c", "vs_stub.c"])
+            e = vlib.cc_harness(variant, "encdrv", ["encdrv.c", "vs_stub.c"], deps=["param_fields.h"])
         r = vlib.cc_harness("rel", "refdec", ["refdec.c"], enc=False)
         _paths[key] = (e, r)
     return _paths[key]
